@@ -46,7 +46,7 @@ def same(real, model, conv=canon):
     return True
 
 
-HAND_SPECS = [['rt1.stone', 'rt2.stone']]
+HAND_SPECS = [['rt1.stone', 'rt2.stone'], ['rt3.stone']]
 
 
 def hand_specs():
@@ -425,3 +425,554 @@ def suite_assign(ck, sessions, n_values, judge=True):
                 ck.failing_input('C08 %s: %s' % ('assignment' if kind == 'set' else 'union construction', bad),
                                  {'kind': kind, 'why': bad.split(' (')[0]},
                                  {'specs': ses.specs, 'cls': ref, 'member': f.name if f else None, 'value': v, 'real': list(real)})
+
+
+# ==================================================================================================
+# C06: decoder on reference encodings, targeted mutations (classified), arbitrary small documents
+# ==================================================================================================
+WRONG_KIND = {
+    'int': ['s', 'x'], 'float': ['s', 'x'], 'str': ['i', 5], 'bool': ['s', 'true'], 'list': ['o', [['k', ['i', 1]]]],
+    'map': ['a', [['i', 1]]], 'struct': ['a', [['i', 1]]], 'union': ['i', 5], 'ts': ['i', 5], 'bytes': ['i', 5],
+}
+
+
+def _kind(t):
+    from stone.ir import (Boolean, Bytes, Float32, Float64, Int32, Int64, List, Map, String, Struct, Timestamp,
+                          UInt32, UInt64, Union, Void)
+    if isinstance(t, (Int32, UInt32, Int64, UInt64)):
+        return 'int'
+    if isinstance(t, (Float32, Float64)):
+        return 'float'
+    for c, k in ((String, 'str'), (Boolean, 'bool'), (List, 'list'), (Map, 'map'), (Struct, 'struct'), (Union, 'union'),
+                 (Timestamp, 'ts'), (Bytes, 'bytes'), (Void, 'void')):
+        if isinstance(t, c):
+            return k
+    raise TypeError(t)
+
+
+def _strip(t):
+    from stone.ir import Alias, Nullable
+    nullable = False
+    while isinstance(t, (Alias, Nullable)):
+        if isinstance(t, Nullable):
+            nullable = True
+        t = t.data_type
+    return t, nullable
+
+
+def classified_mutations(ses, t, doc, rng, depth=0, top=False):
+    """Mutations of a reference encoding `doc` of declared type `t` with a known verdict.
+    Yields (doc', verdict, why); verdict: 'reject' (both modes) | 'reject-strict' | 'accept'."""
+    from stone.ir import List, Map, Struct, Union, Void, Nullable
+    out = []
+    core_t, nullable = _strip(t)
+    k = _kind(core_t)
+    if doc[0] == 'n' and nullable:
+        return out
+    if k != 'void':
+        out.append((WRONG_KIND[k], 'reject', 'wrong JSON kind for %s' % k))
+    if k == 'int' and doc[0] == 'i':
+        from harness.values import _int_bounds
+        lo, hi = _int_bounds(core_t)
+        out.append((['i', hi + 1], 'reject', 'integer above bound'))
+        out.append((['i', lo - 1], 'reject', 'integer below bound'))
+    elif k == 'str' and doc[0] == 's':
+        if core_t.max_length is not None:
+            out.append((['s', 'q' * (core_t.max_length + 1)], 'reject', 'string too long'))
+        if core_t.min_length:
+            out.append((['s', 'q' * (core_t.min_length - 1)], 'reject', 'string too short'))
+    elif k == 'list' and doc[0] == 'a':
+        items = doc[1]
+        if core_t.max_items is not None and items:
+            out.append((['a', items + [items[0]] * (core_t.max_items + 1 - len(items))], 'reject', 'too many items'))
+        if core_t.min_items and len(items) >= core_t.min_items:
+            out.append((['a', items[:core_t.min_items - 1]], 'reject', 'too few items'))
+        if items and depth < 4:
+            i = rng.randrange(len(items))
+            for d2, v, why in classified_mutations(ses, core_t.data_type, items[i], rng, depth + 1):
+                out.append((['a', items[:i] + [d2] + items[i + 1:]], v, 'list item: ' + why))
+    elif k == 'map' and doc[0] == 'o':
+        if doc[1] and depth < 4:
+            i = rng.randrange(len(doc[1]))
+            key, val = doc[1][i]
+            for d2, v, why in classified_mutations(ses, core_t.value_data_type, val, rng, depth + 1):
+                out.append((['o', doc[1][:i] + [[key, d2]] + doc[1][i + 1:]], v, 'map value: ' + why))
+    elif k == 'struct' and doc[0] == 'o':
+        target = core_t
+        members = dict((a, b) for a, b in doc[1])
+        if core_t.has_enumerated_subtypes():
+            tag = members.get('.tag')
+            sub = None
+            if tag and tag[0] == 's':
+                for f in core_t.get_enumerated_subtypes():
+                    if f.name == tag[1]:
+                        sub = f.data_type
+            if sub is None or sub.has_enumerated_subtypes():
+                return out
+            target = sub
+            out.append((['o', [[a, b] for a, b in doc[1] if a != '.tag']], 'reject', "enumerated subtype without '.tag'"))
+            out.append((['o', [[a, (['s', 'zz_unknown_subtype'] if a == '.tag' else b)] for a, b in doc[1]]],
+                        'reject-strict' if core_t.is_catch_all() else 'reject', 'unknown subtype'))
+        fields = [f for c in irdump.chain(target) for f in c.fields if not f.omitted_caller]
+        for f in fields:
+            required = not isinstance(f.data_type, Nullable) and not f.has_default and \
+                not _strip(f.data_type)[1]
+            if f.name in members:
+                if required:
+                    out.append((['o', [[a, b] for a, b in doc[1] if a != f.name]], 'reject', 'required field omitted'))
+                if depth < 4 and rng.random() < 0.7:
+                    for d2, v, why in classified_mutations(ses, f.data_type, members[f.name], rng, depth + 1):
+                        out.append((['o', [[a, (d2 if a == f.name else b)] for a, b in doc[1]]], v, 'field %s: %s' % (f.name, why)))
+            elif _strip(f.data_type)[1]:
+                out.append((['o', doc[1] + [[f.name, ['n']]]], 'accept', 'explicit null for a nullable field'))
+        out.append((['o', doc[1] + [['zz_unknown_field', ['i', 1]]]], 'reject-strict', 'unknown field'))
+    elif k == 'union' and doc[0] == 'o':
+        members = dict((a, b) for a, b in doc[1])
+        tag = members.get('.tag')
+        if not tag or tag[0] != 's':
+            return out
+        f = next((f for f in core_t.all_fields if f.name == tag[1]), None)
+        if f is None:
+            return out
+        catch_all = next((g.name for g in core_t.all_fields if g.catch_all), None)
+        out.append((['o', [[a, (['s', 'zz_unknown_tag'] if a == '.tag' else b)] for a, b in doc[1] if a in ('.tag',)]],
+                    'reject-strict' if catch_all else 'reject', 'unknown tag'))
+        if catch_all:
+            out.append((['o', [['.tag', ['s', catch_all]]]], 'reject', 'the catch-all tag itself'))
+            out.append((['s', catch_all], 'reject', 'the catch-all tag itself (string form)'))
+        out.append((['o', [[a, b] for a, b in doc[1] if a != '.tag']], 'reject', "union object without '.tag'"))
+        ft, fnull = _strip(f.data_type)
+        if isinstance(ft, Void):
+            out.append((['s', f.name], 'accept', 'bare-string form of a void tag'))
+        elif fnull and len(doc[1]) == 1:
+            out.append((['s', f.name], 'accept', 'bare-string form of a tag-only nullable member'))
+        elif isinstance(ft, Struct) and not ft.has_enumerated_subtypes():
+            if depth < 4:
+                rest = ['o', [[a, b] for a, b in doc[1] if a != '.tag']]
+                for d2, v, why in classified_mutations(ses, ft, rest, rng, depth + 1):
+                    if d2[0] == 'o' and v != 'accept':
+                        out.append((['o', [['.tag', tag]] + d2[1]], v, 'struct member %s: %s' % (f.name, why)))
+        elif f.name in members and depth < 4:
+            for d2, v, why in classified_mutations(ses, ft, members[f.name], rng, depth + 1):
+                out.append((['o', [[a, (d2 if a == f.name else b)] for a, b in doc[1]]], v, 'member %s: %s' % (f.name, why)))
+            if not fnull:
+                out.append((['o', [['.tag', tag]]], 'reject', 'payload of a non-nullable member omitted'))
+    return out
+
+
+SMALL_ATOMS = [['n'], ['b', True], ['i', 0], ['i', 1], ['f', values.fbits(1.5)], ['s', ''], ['s', 'a'], ['s', '.tag'], ['s', 'other'],
+               ['s', 'é'], ['a', []], ['o', []]]
+
+
+def small_docs(rng, ses, ir, n):
+    """Arbitrary small JSON documents, biased to shapes that reach the decoder's branches for `ir`."""
+    from stone.ir import Struct, Union
+    core_t, _ = _strip(ir)
+    names = ['.tag', 'a', 'other']
+    if isinstance(core_t, Struct):
+        names += [f.name for f in core_t.all_fields][:4]
+        if core_t.has_enumerated_subtypes():
+            names += [f.name for f in core_t.get_enumerated_subtypes()][:3]
+    if isinstance(core_t, Union):
+        names += [f.name for f in core_t.all_fields][:5]
+    tagvals = [['s', x] for x in names if x != '.tag']
+    out = list(SMALL_ATOMS) + tagvals
+    for _ in range(n):
+        r = rng.random()
+        if r < 0.35:
+            ks = rng.sample(names, min(len(names), rng.randint(1, 3)))
+            out.append(['o', [[k, (rng.choice(tagvals) if k == '.tag' and rng.random() < 0.8 else rng.choice(SMALL_ATOMS))] for k in ks]])
+        elif r < 0.55:
+            out.append(['a', [rng.choice(SMALL_ATOMS + tagvals) for _ in range(rng.randint(1, 3))]])
+        elif r < 0.8:
+            ks = rng.sample(names, min(len(names), 2))
+            inner = ['o', [[k, rng.choice(SMALL_ATOMS + tagvals)] for k in ks]]
+            out.append(['o', [['.tag', rng.choice(tagvals)], [rng.choice(names[1:]), inner]]])
+        else:
+            out.append(rng.choice(SMALL_ATOMS + tagvals))
+    return out
+
+
+def valid_deep(ses, t, v):
+    """Is the decoded value valid for t?  reference predicate, recursing into struct fields and union
+    payloads (required fields present, every set field valid). None = unspecified."""
+    from stone.ir import Struct, Union, Nullable, Void, List, Map
+    from harness.values import sat_ir
+    core_t, nullable = _strip(t)
+    if v[0] == 'n' and nullable:
+        return True
+    r = sat_ir(ses.built.ir_by_ref, t, v)
+    if r is False:
+        return False
+    res = [r]
+    if v[0] == 'S':
+        dt = ses.built.ir_by_ref.get(v[1])
+        slots = dict((a, b) for a, b in v[2])
+        for c in irdump.chain(dt):
+            for f in c.fields:
+                if f.name in slots:
+                    if slots[f.name][0] == 'n' and _strip(f.data_type)[1]:
+                        continue
+                    res.append(valid_deep(ses, f.data_type, slots[f.name]))
+                elif not (isinstance(f.data_type, Nullable) or f.has_default or f.omitted_caller):
+                    # lenient decoding of an unknown subtype yields the base struct; everything else must be complete
+                    res.append(False)
+    elif v[0] == 'U':
+        dt = ses.built.ir_by_ref.get(v[1])
+        f = next((f for f in dt.all_fields if f.name == v[2]), None)
+        if f is None:
+            res.append(False)
+        elif isinstance(f.data_type, Void):
+            res.append(v[3][0] == 'n')
+        else:
+            res.append(valid_deep(ses, f.data_type, v[3]))
+    elif v[0] == 'l' and isinstance(core_t, List):
+        res += [valid_deep(ses, core_t.data_type, x) for x in v[1]]
+    elif v[0] == 'd' and isinstance(core_t, Map):
+        res += [valid_deep(ses, core_t.value_data_type, b) for _a, b in v[1]]
+    if False in res:
+        return False
+    return None if None in res else True
+
+
+def suite_decode(ck, sessions, n_values, n_small, judge=True):
+    """rt.dec on reference encodings, classified mutations and arbitrary small documents, strict and
+    lenient; oracle: no crash, decoded values valid, must-accept / must-reject classes."""
+    for ses in sessions:
+        work = []   # (label, ir, irt, validator, doc, verdict, why)
+        for label, ir in ses.types:
+            validator = ses.validator(label, ir)
+            irt = irdump.ir_ty(ir)
+            for _ in range(n_values):
+                tv = ses.gen.valid(ir)
+                if tv is None:
+                    continue
+                built = outcome(lambda: ses.codec.build_checked(tv))
+                if built[0] != 'ok':
+                    continue
+                enc = ses.real_encode(validator, built[1])
+                if enc[0] != 'ok':
+                    continue
+                doc = enc[1]
+                stored = ses.codec.to_tagged(built[1])
+                ambiguous = shape_sig(ses, ir, stored) == 'nullable-all-optional-struct-member-empty'
+                work.append((label, ir, irt, validator, doc, 'accept' if not ambiguous else 'unspec', 'reference encoding'))
+                for d2, verdict, why in classified_mutations(ses, ir, doc, ck.rng, top=True):
+                    work.append((label, ir, irt, validator, d2, verdict, why))
+            for d in small_docs(ck.rng, ses, ir, n_small):
+                work.append((label, ir, irt, validator, d, 'unspec', 'arbitrary small document'))
+        ops, meta = [], []
+        for w in work:
+            for strict in (True, False):
+                ops.append({'op': 'rt.dec', 'ty': w[2], 'doc': w[4], 'perms': [], 'strict': strict})
+                meta.append((w, strict))
+        reps = ses.run(ops, [w[4] for w in work], extra_types=[w[2] for w in work])
+        for (w, strict), rep in zip(meta, reps):
+            label, ir, irt, validator, doc, verdict, why = w
+            real = ses.real_decode(validator, doc, strict=strict)
+            mo = model_outcome(rep)
+            ck.case(('dec', label, strict, json.dumps(doc, sort_keys=True)), nontrivial=doc[0] in 'oa')
+            ck.hist('rt.dec.class', verdict)
+            ck.hist('rt.dec.outcome', '%s/%s' % (verdict, real[0]))
+            if same(real, mo):
+                ck.agree('rt.dec')
+            else:
+                ck.disagree('rt.dec', {'type': label, 'doc': doc, 'strict': strict, 'why': why}, list(real), list(mo))
+            if not judge:
+                continue
+            bad = None
+            if real[0] == 'crash':
+                bad = ('an exception other than the validation error escapes the decoder', real[1])
+            elif real[0] == 'ok':
+                if verdict == 'reject' or (verdict == 'reject-strict' and strict):
+                    bad = ('a document that must be rejected is accepted', why.split(': ')[-1])
+                else:
+                    vd = valid_deep(ses, ir, real[1])
+                    if vd is False:
+                        bad = ('the decoder returns a value that is not valid for the type', _kind(_strip(ir)[0]))
+            elif real[0] == 'verr' and verdict == 'accept':
+                bad = ('a valid serialisation is rejected', why)
+            if bad:
+                ck.failing_input('C06: %s (%s)' % bad, {'kind': 'decode', 'why': bad[0], 'detail': bad[1]},
+                                 {'specs': ses.specs, 'type': label, 'doc': doc, 'strict': strict, 'mutation': why,
+                                  'real': list(real)})
+            if len(ck.samples) < 4 and verdict != 'unspec' and doc[0] == 'o':
+                ck.sample({'type': label, 'doc': tagged_to_json(doc), 'strict': strict, 'class': verdict, 'why': why, 'real': real[0]})
+
+
+# ==================================================================================================
+# C13: permissions (Omitted) and redaction
+# ==================================================================================================
+def declared_callers(api):
+    out = set()
+    for ns in api.namespaces.values():
+        for dt in ns.data_types:
+            for f in dt.fields:
+                if f.omitted_caller:
+                    out.add(f.omitted_caller)
+    return sorted(out)
+
+
+def subsets(xs):
+    out = [[]]
+    for x in xs:
+        out += [s + [x] for s in out]
+    return out
+
+
+class Sentinels:
+    def __init__(self):
+        self.n = 0
+
+    def fresh(self):
+        self.n += 1
+        return 's%dntX' % self.n        # contains "nt" after a digit; BlotRe "(se)(nt)" does not match it
+
+
+def mark(ses, t, v, sent, omitted_for, redacted, acc, depth=0):
+    """Walk value v of declared type t; replace unconstrained strings at omitted / redacted positions by
+    unique sentinels. acc: {'omitted': [(sentinel, caller)], 'redacted': [sentinel]}"""
+    from stone.ir import Alias, Nullable, String, List, Map, Struct, Union
+    from harness.values import sat_ir
+    cur = t
+    while isinstance(cur, (Alias, Nullable)):
+        if isinstance(cur, Alias) and cur.redactor is not None:
+            redacted = True
+        cur = cur.data_type
+    k = v[0]
+    if k == 's' and isinstance(cur, String):
+        if omitted_for or redacted:
+            s = sent.fresh()
+            if sat_ir({}, cur, ['s', s]):
+                if omitted_for:
+                    acc['omitted'].append((s, omitted_for))
+                if redacted:
+                    acc['redacted'].append(s)
+                return ['s', s]
+        return v
+    if k in ('l', 'u') and isinstance(cur, List):
+        return [k, [mark(ses, cur.data_type, x, sent, omitted_for, redacted, acc, depth + 1) for x in v[1]]]
+    if k == 'd' and isinstance(cur, Map):
+        return ['d', [[a, mark(ses, cur.value_data_type, b, sent, omitted_for, redacted, acc, depth + 1)] for a, b in v[1]]]
+    if k == 'S':
+        dt = ses.built.ir_by_ref[v[1]]
+        fields = {f.name: f for c in irdump.chain(dt) for f in c.fields}
+        out = []
+        for a, b in v[2]:
+            f = fields[a]
+            out.append([a, mark(ses, f.data_type, b, sent, omitted_for or f.omitted_caller,
+                                redacted or f.redactor is not None, acc, depth + 1)])
+        return ['S', v[1], out]
+    if k == 'U':
+        dt = ses.built.ir_by_ref[v[1]]
+        f = next((f for f in dt.all_fields if f.name == v[2]), None)
+        if f is None:
+            return v
+        return ['U', v[1], v[2], mark(ses, f.data_type, v[3], sent, omitted_for or f.omitted_caller,
+                                      redacted or f.redactor is not None, acc, depth + 1)]
+    return v
+
+
+def suite_perms(ck, sessions, n_values, judge=True):
+    from stone.ir import Struct, Union
+    for ses in sessions:
+        callers = declared_callers(ses.api)[:3]
+        psets = subsets(callers)
+        # --- class tables: real reflection attributes vs model (code-following) vs specification
+        ops, meta = [], []
+        for ref, dt in ses.built.ir_by_ref.items():
+            for perms in psets:
+                ops.append({'op': 'rt.fields' if isinstance(dt, Struct) else 'rt.tags', 'cls': ref, 'perms': perms})
+                meta.append((ref, dt, perms))
+        for (ref, dt, perms), r in zip(meta, ses.run(ops, [])):
+            cls = ses.built.cls_by_ref[ref]
+            if isinstance(dt, Struct):
+                real = [n for n, _ in cls._all_fields_]
+                for p in perms:
+                    real += [n for n, _ in getattr(cls, '_all_%s_fields_' % p, [])]
+                spec = [f.name for c in irdump.chain(dt) for f in c.fields if not f.omitted_caller or f.omitted_caller in perms]
+            else:
+                real = list(cls._tagmap)
+                for p in perms:
+                    real += list(getattr(cls, '_%s_tagmap' % p, {}))
+                spec = [f.name for f in dt.all_fields if not f.omitted_caller or f.omitted_caller in perms]
+            ck.case(('tables', ref, tuple(perms)), nontrivial=bool(perms))
+            if sorted(real) == sorted(r.get('code', ['<protocol>'])):
+                ck.agree('rt.tables')
+            else:
+                ck.disagree('rt.tables', {'cls': ref, 'perms': perms}, real, r)
+            if judge and sorted(real) != sorted(spec):
+                ck.failing_input('C13: the members a caller holding %r sees are not the declared ones' % (perms,),
+                                 {'kind': 'tables', 'struct': isinstance(dt, Struct)},
+                                 {'specs': ses.specs, 'cls': ref, 'perms': perms, 'real': sorted(real), 'declared': sorted(spec)})
+        # --- values
+        sent = Sentinels()
+        work = []
+        for label, ir in ses.types:
+            validator = ses.validator(label, ir)
+            irt = irdump.ir_ty(ir)
+            for perms in psets:
+                gen = values.ValueGen(ck.rng, ses.api, ses.ts, perms=perms)
+                for _ in range(n_values):
+                    tv = gen.valid(ir)
+                    if tv is None:
+                        continue
+                    acc = {'omitted': [], 'redacted': []}
+                    tv = mark(ses, ir, tv, sent, None, False, acc)
+                    built = outcome(lambda: ses.codec.build_checked(tv))
+                    if built[0] != 'ok':
+                        ck.stat('perm_value_refused')
+                        continue
+                    work.append((label, ir, irt, validator, built[1], ses.codec.to_tagged(built[1]), perms, acc))
+        ops, meta = [], []
+        for w in work:
+            label, ir, irt, validator, obj, stored, vperms, acc = w
+            for eperms in psets:
+                for redact in (False, True):
+                    ops.append({'op': 'rt.enc', 'ty': irt, 'v': stored, 'perms': eperms, 'redact': redact})
+                    meta.append((w, eperms, redact))
+        reps = ses.run(ops, [w[5] for w in work], extra_types=[w[2] for w in work])
+        docs = []
+        for (w, eperms, redact), rep in zip(meta, reps):
+            label, ir, irt, validator, obj, stored, vperms, acc = w
+            real = ses.real_encode(validator, obj, perms=eperms, redact=redact)
+            mo = model_outcome(rep)
+            ck.case(('penc', label, tuple(eperms), redact, json.dumps(stored, sort_keys=True)),
+                    nontrivial=bool(acc['omitted'] or acc['redacted']))
+            ck.hist('rt.enc.perms', '%d-of-%d%s' % (len(eperms), len(callers), '+redact' if redact else ''))
+            ck.hist('rt.penc.outcome', real[0])
+            if same(real, mo):
+                ck.agree('rt.enc')
+            else:
+                ck.disagree('rt.enc', {'type': label, 'value': stored, 'perms': eperms, 'redact': redact}, list(real), list(mo))
+            if real[0] == 'crash' and judge:
+                ck.failing_input('C13: encoding with permissions / redaction raises %s' % real[1],
+                                 {'kind': 'penc-crash', 'exc': real[1]},
+                                 {'specs': ses.specs, 'type': label, 'value': stored, 'perms': eperms, 'redact': redact})
+            if real[0] != 'ok':
+                continue
+            text = json.dumps(tagged_to_json(real[1]), ensure_ascii=False)
+            if judge:
+                for s, caller in acc['omitted']:
+                    if caller not in eperms and s in text:
+                        ck.failing_input('C13: a member omitted for %r appears in the encoding for a caller without it' % caller,
+                                         {'kind': 'omitted-leak'},
+                                         {'specs': ses.specs, 'type': label, 'value': stored, 'perms': eperms, 'redact': redact,
+                                          'sentinel': s, 'text': text[:400]})
+                    if caller in eperms and s not in text and not (redact and s in acc['redacted']):
+                        ck.failing_input('C13: a member omitted for %r is missing for a caller holding it' % caller,
+                                         {'kind': 'omitted-missing'},
+                                         {'specs': ses.specs, 'type': label, 'value': stored, 'perms': eperms, 'redact': redact,
+                                          'sentinel': s, 'text': text[:400]})
+                if redact:
+                    for s in acc['redacted']:
+                        if s in text:
+                            ck.failing_input('C13: clear text of a redacted value appears in the output',
+                                             {'kind': 'redact-leak'},
+                                             {'specs': ses.specs, 'type': label, 'value': stored, 'perms': eperms,
+                                              'sentinel': s, 'text': text[:400]})
+            if not redact:
+                docs.append((w, eperms, real[1]))
+            if len(ck.samples) < 4 and (acc['omitted'] or acc['redacted']) and redact:
+                ck.sample({'type': label, 'perms': eperms, 'redact': redact, 'encoded': tagged_to_json(real[1]),
+                           'omitted_sentinels': acc['omitted'], 'redacted_sentinels': acc['redacted']})
+        # --- decode what was produced for callers `eperms`, as a caller holding `dperms`
+        ops, meta = [], []
+        for (w, eperms, doc) in docs:
+            for dperms in psets:
+                for strict in (True, False):
+                    ops.append({'op': 'rt.dec', 'ty': w[2], 'doc': doc, 'perms': dperms, 'strict': strict})
+                    meta.append((w, eperms, doc, dperms, strict))
+        reps = ses.run(ops, [d for _w, _e, d in docs], extra_types=[w[2] for w, _e, _d in docs])
+        for (w, eperms, doc, dperms, strict), rep in zip(meta, reps):
+            label, ir, irt, validator, obj, stored, vperms, acc = w
+            real = ses.real_decode(validator, doc, perms=dperms, strict=strict)
+            mo = model_outcome(rep)
+            ck.case(('pdec', label, tuple(eperms), tuple(dperms), strict, json.dumps(doc, sort_keys=True)), nontrivial=bool(acc['omitted']))
+            ck.hist('rt.pdec.outcome', real[0])
+            if same(real, mo):
+                ck.agree('rt.dec')
+            else:
+                ck.disagree('rt.dec', {'type': label, 'doc': doc, 'perms': dperms, 'strict': strict}, list(real), list(mo))
+            if not judge:
+                continue
+            text = json.dumps(tagged_to_json(doc), ensure_ascii=False)
+            supplied_without = [c for s, c in acc['omitted'] if s in text and c not in dperms]
+            if real[0] == 'crash':
+                ck.failing_input('C13: decoding with permissions raises %s' % real[1], {'kind': 'pdec-crash', 'exc': real[1]},
+                                 {'specs': ses.specs, 'type': label, 'doc': doc, 'perms': dperms, 'strict': strict})
+            elif strict and supplied_without and real[0] == 'ok':
+                ck.failing_input('C13: a caller without %r supplied a member omitted for it and strict decoding accepted it' % supplied_without[0],
+                                 {'kind': 'omitted-supplied'},
+                                 {'specs': ses.specs, 'type': label, 'doc': doc, 'perms': dperms})
+            elif sorted(dperms) == sorted(eperms) and real[0] != 'ok':
+                ck.failing_input('C13: a caller cannot decode what was encoded for the same permissions',
+                                 {'kind': 'pdec-refused'},
+                                 {'specs': ses.specs, 'type': label, 'doc': doc, 'perms': dperms, 'strict': strict, 'real': list(real)})
+
+
+# ==================================================================================================
+# C05: real encoding vs the specification-level `wire` (and the model's validB on generated values)
+# ==================================================================================================
+def json_equiv(a, b):
+    """Parsed-JSON equality: same kinds (a float and an integer of equal value are the same JSON
+    number; booleans are not numbers), objects unordered."""
+    ka, kb = a[0], b[0]
+    if ka in 'if' and kb in 'if':
+        from harness.irdump import bits_to_float
+        xa = a[1] if ka == 'i' else bits_to_float(a[1])
+        xb = b[1] if kb == 'i' else bits_to_float(b[1])
+        return xa == xb
+    if ka != kb:
+        return False
+    if ka == 'a':
+        return len(a[1]) == len(b[1]) and all(json_equiv(x, y) for x, y in zip(a[1], b[1]))
+    if ka == 'o':
+        da, db = dict((k, v) for k, v in a[1]), dict((k, v) for k, v in b[1])
+        return len(a[1]) == len(da) and len(b[1]) == len(db) and da.keys() == db.keys() and \
+            all(json_equiv(da[k], db[k]) for k in da)
+    return a == b
+
+
+def suite_wire(ck, sessions, n_values, judge=True):
+    for ses in sessions:
+        cases = []
+        for label, ir in ses.types:
+            validator = ses.validator(label, ir)
+            irt = irdump.ir_ty(ir)
+            for _ in range(n_values):
+                tv = ses.gen.valid(ir)
+                if tv is None:
+                    continue
+                built = outcome(lambda: ses.codec.build_checked(tv))
+                if built[0] != 'ok':
+                    continue
+                cases.append((label, ir, irt, validator, built[1], ses.codec.to_tagged(built[1])))
+        ops = [{'op': 'rt.wire', 'ty': c[2], 'v': c[5]} for c in cases]
+        reps = ses.run(ops, [c[5] for c in cases], extra_types=[c[2] for c in cases])
+        for c, rep in zip(cases, reps):
+            label, ir, irt, validator, obj, stored = c
+            real = ses.real_encode(validator, obj)
+            ck.case(('wire', label, json.dumps(stored, sort_keys=True)), nontrivial=stored[0] in 'SUld')
+            ck.hist('rt.wire.kind', stored[0])
+            if 'ok' not in rep:
+                ck.disagree('rt.wire', {'type': label, 'value': stored}, list(real), rep)
+                continue
+            if not rep.get('valid'):
+                # the generator's "valid by construction" and the model's validB must agree
+                ck.disagree('rt.validB', {'type': label, 'value': stored}, 'generated as valid', rep)
+            else:
+                ck.agree('rt.validB')
+            if real[0] == 'ok' and json_equiv(real[1], rep['ok']):
+                ck.agree('rt.wire')
+            else:
+                ck.disagree('rt.wire', {'type': label, 'value': stored}, list(real), rep['ok'])
+                if judge:
+                    # the reference encoder is written from the document: a difference on a valid value is
+                    # the property failing on the real code
+                    ck.failing_input('C05: the encoding differs from the documented wire format',
+                                     {'kind': 'wire', 'shape': stored[0], 'outcome': real[0]},
+                                     {'specs': ses.specs, 'type': label, 'value': stored, 'real': list(real),
+                                      'wire': rep['ok']})
+            if len(ck.samples) < 4 and stored[0] in 'SU':
+                ck.sample({'type': label, 'value': stored, 'wire': tagged_to_json(rep['ok'])})
